@@ -47,7 +47,9 @@ type ProjectRunner struct {
 	doneProcMutex     sync.Mutex
 	doneProcesses     map[string]*Process
 	logger            pclog.PcLogger
-	waitGroup         sync.WaitGroup
+	procCountMutex    sync.Mutex
+	procCount         int
+	procCountWaiters  []chan struct{}
 	exitCode          int
 	exitCodeOnce      sync.Once
 	projectState      *types.ProjectState
@@ -169,7 +171,7 @@ func (p *ProjectRunner) Run() error {
 		p.shutDownMutex.Unlock()
 		p.startMutex.Unlock()
 	}
-	p.waitGroup.Wait()
+	p.waitForProcesses()
 	log.Info().Msg("Project completed")
 	if p.exitCode != 0 {
 		err = &ExitError{p.exitCode}
@@ -214,10 +216,10 @@ func (p *ProjectRunner) runProcess(config *types.ProcessConfig) {
 	// starts as Pending, whatever its predecessor ended as
 	process.setState(types.ProcessStatePending)
 	p.addRunningProcess(process)
-	p.waitGroup.Add(1)
+	p.processStarted()
 	go func(proc *Process) {
 		defer p.removeRunningProcess(proc)
-		defer p.waitGroup.Done()
+		defer p.processFinished()
 		defer verifYield("runner.afterRun", proc.getName())
 		verifYield("runner.spawned", proc.getName())
 		if err = p.waitIfNeeded(proc.procConf); err != nil {
@@ -233,6 +235,40 @@ func (p *ProjectRunner) runProcess(config *types.ProcessConfig) {
 			p.onProcessEnd(exitCode, proc.procConf)
 		}
 	}(process)
+}
+
+// Run() waits for all process goroutines, and start requests may add new
+// ones at any time - also at the instant the last one finishes, which a
+// sync.WaitGroup does not allow (Add concurrent with a returning Wait panics).
+
+func (p *ProjectRunner) processStarted() {
+	p.procCountMutex.Lock()
+	p.procCount++
+	p.procCountMutex.Unlock()
+}
+
+func (p *ProjectRunner) processFinished() {
+	p.procCountMutex.Lock()
+	p.procCount--
+	if p.procCount == 0 {
+		for _, waiter := range p.procCountWaiters {
+			close(waiter)
+		}
+		p.procCountWaiters = nil
+	}
+	p.procCountMutex.Unlock()
+}
+
+func (p *ProjectRunner) waitForProcesses() {
+	p.procCountMutex.Lock()
+	if p.procCount == 0 {
+		p.procCountMutex.Unlock()
+		return
+	}
+	waiter := make(chan struct{})
+	p.procCountWaiters = append(p.procCountWaiters, waiter)
+	p.procCountMutex.Unlock()
+	<-waiter
 }
 
 func (p *ProjectRunner) waitIfNeeded(process *types.ProcessConfig) error {
